@@ -6,12 +6,15 @@
 package attacksim
 
 import (
+	"context"
 	"fmt"
+	"net"
 	"os"
 	"os/signal"
 	"syscall"
 	"testing"
 	"testing/synctest"
+	"time"
 
 	"github.com/tsenart/vegeta/v12/internal/simrt"
 )
@@ -21,6 +24,11 @@ func TestMain(m *testing.M) {
 	ch := make(chan os.Signal, 1)
 	signal.Notify(ch, syscall.SIGUSR2)
 	signal.Stop(ch)
+	// Likewise the resolver configuration of package net (a lazily created
+	// semaphore channel) must be initialised outside any bubble.
+	ctx, cancel := context.WithTimeout(context.Background(), 200*time.Millisecond)
+	(&net.Resolver{PreferGo: true}).LookupHost(ctx, "localhost")
+	cancel()
 	os.Exit(m.Run())
 }
 
